@@ -135,6 +135,13 @@ def plan(tier, seed):
             for s in range(0, PER[tier], BATCH[tier]):
                 units.append({"cls": c, "ci": ci, "flip": flip, "start": s, "stop": min(PER[tier], s + BATCH[tier]),
                               "w": WEIGHT[c] * BATCH[tier]})
+    # one process, the option switched between consecutive cases (off, on, off, on ...): a session that has used one setting
+    # and then runs under the other one (anything remembered from the first setting would be stale)
+    k = BATCH[tier] // 2
+    for ci, c in enumerate(CLASSES):
+        for s in range(0, PER[tier] // 2, k):
+            units.append({"cls": c, "ci": ci, "flip": "alternating", "start": s, "stop": min(PER[tier] // 2, s + k),
+                          "w": WEIGHT[c] * k * 1.5})
     return units
 
 
@@ -541,23 +548,37 @@ def teardown(ctx):
 
 
 # --------------------------------------------------------------------------------------- one unit
-def run_unit(ctx, u):
+def _switch(ctx, flip):
     from autoconf import conf
-    flip = int(u["flip"])
     env.push_config("fits_flip%d" % flip)
     seen = conf.instance["general"]["fits"]["flip_for_ds9"]
     if seen is not bool(flip):
         raise env.Inconclusive("config switch to fits_flip%d not effective (flag reads %r)" % (flip, seen))
     ctx.c16_flip = flip
+
+
+def run_unit(ctx, u):
+    from autoconf import conf
+    alternating = u["flip"] == "alternating"
+    if not alternating:
+        flip = int(u["flip"])
+        _switch(ctx, flip)
     root = os.path.realpath(tempfile.mkdtemp(prefix="verif_c16_"))
     home = os.getcwd()
     try:
         for i in range(u["start"], u["stop"]):
-            key = "%s:flip%d:%d" % (u["cls"], flip, i)
+            if alternating:
+                flip = i % 2
+                key = "%s:switched_to_flip%d:%d" % (u["cls"], flip, i)
+            else:
+                key = "%s:flip%d:%d" % (u["cls"], flip, i)
             if not ctx.begin(key):
                 continue
+            if alternating:
+                _switch(ctx, flip)
+                ctx.classes["option_switched_within_one_process_to_%d" % flip] += 1
             _check(ctx, conf.instance["general"]["fits"]["flip_for_ds9"] is bool(flip), "config.flag_matches_unit", flip=flip)
-            rng = gen.rng_for(ctx.seed, NO, u["ci"], i)
+            rng = gen.rng_for(ctx.seed, NO, u["ci"], i, 7) if alternating else gen.rng_for(ctx.seed, NO, u["ci"], i)
             cdir = os.path.join(root, "c%05d" % i)
             os.mkdir(cdir)
             try:
